@@ -54,6 +54,7 @@ func tryReplay(eng *Engine, prop string, l *logical, seed int) (bool, map[string
 	if err := json.Unmarshal(data, &tpls); err != nil {
 		return false, map[string]interface{}{"outcome": "bad templates.json: " + err.Error()}
 	}
+	var last map[string]interface{}
 	for _, t := range tpls {
 		re, err := regexp.Compile("^(?:" + t.Obligation + ")$")
 		if err != nil || !re.MatchString(l.Name) {
@@ -69,8 +70,11 @@ func tryReplay(eng *Engine, prop string, l *logical, seed int) (bool, map[string
 			ok, out = c.ok, c.out
 		} else {
 			ok, out = runReplay(eng.repoDir, filepath.Join(verif, "replay", t.File), t.Test, t.Pkg, seed, t.Schedule)
-			if !ok && t.FailConfirms && strings.Contains(out, "--- FAIL: "+t.Test) {
-				ok = true
+			if !ok && t.FailConfirms {
+				// the test name may be a regular expression covering several demonstration tests
+				if re, err := regexp.Compile("--- FAIL: (" + t.Test + ")"); err == nil && re.MatchString(out) {
+					ok = true
+				}
 			}
 			replayMu.Lock()
 			replayCache[key] = replayOutcome{ok, out}
@@ -80,7 +84,20 @@ func tryReplay(eng *Engine, prop string, l *logical, seed int) (bool, map[string
 		if ok {
 			outcome = "REPLAY-CONFIRMED"
 		}
-		return ok, map[string]interface{}{"outcome": outcome, "template": t.File, "test": t.Test, "note": t.Note, "output": out}
+		res := map[string]interface{}{"outcome": outcome, "template": t.File, "test": t.Test, "note": t.Note, "output": out}
+		if ok {
+			return true, res
+		}
+		// several templates may cover one obligation (different inputs): the first that confirms decides
+		if last == nil {
+			last = res
+		} else {
+			tried, _ := last["also_tried"].([]string)
+			last["also_tried"] = append(tried, t.File)
+		}
+	}
+	if last != nil {
+		return false, last
 	}
 	return false, map[string]interface{}{"outcome": "no replay template for this obligation"}
 }
@@ -128,7 +145,7 @@ func runReplay(repo, src, test, pkg string, seed int, sched []schedulePoint) (bo
 	os.WriteFile(ovFile, ovData, 0o644)
 	ctx, cancel := context.WithTimeout(context.Background(), 240*time.Second)
 	defer cancel()
-	cmd := exec.CommandContext(ctx, "go", "test", "-overlay", ovFile, "-v", "-vet=off", "-count=1", "-timeout", "120s", "-run", "^"+test+"$", ".")
+	cmd := exec.CommandContext(ctx, "go", "test", "-overlay", ovFile, "-v", "-vet=off", "-count=1", "-timeout", "120s", "-run", "^("+test+")$", ".")
 	cmd.Dir = dir
 	cmd.Env = append(os.Environ(), "GOFLAGS=-mod=readonly", "GOPROXY=off", "GOSUMDB=off", "GOTOOLCHAIN=local", fmt.Sprintf("VERIF_SEED=%d", seed))
 	out, _ := cmd.CombinedOutput()
